@@ -631,6 +631,13 @@ class _AttrCalls(ast.NodeTransformer):
         if isinstance(n.func, ast.Name) and n.func.id == "getattr" and len(n.args) == 2 and isinstance(n.args[1], ast.Constant) and \
                 isinstance(n.args[1].value, str) and n.args[1].value.isidentifier():
             return ast.copy_location(ast.Attribute(value=n.args[0], attr=n.args[1].value, ctx=ast.Load()), n)
+        # dict(zip(("a", "b"), ("x", "y"))) -> dict(a="x", b="y")
+        if isinstance(n.func, ast.Name) and n.func.id == "dict" and len(n.args) == 1 and not n.keywords and isinstance(n.args[0], ast.Call) and \
+                isinstance(n.args[0].func, ast.Name) and n.args[0].func.id == "zip" and len(n.args[0].args) == 2 and \
+                all(isinstance(a, (ast.Tuple, ast.List)) for a in n.args[0].args):
+            ks, vs = n.args[0].args
+            if len(ks.elts) == len(vs.elts) and all(isinstance(k, ast.Constant) and isinstance(k.value, str) and k.value.isidentifier() for k in ks.elts):
+                return ast.copy_location(ast.Call(func=n.func, args=[], keywords=[ast.keyword(arg=k.value, value=v) for k, v in zip(ks.elts, vs.elts)]), n)
         return n
 
     def visit_Expr(self, n):
@@ -703,8 +710,9 @@ def _unroll_block(M, fn, stmts: List[ast.stmt], changed: List[str], top=None) ->
                             ok = False
                     if not ok:
                         break
-                    # only unroll when the substituted values are plain (names / attributes / constants)
-                    if not all(isinstance(v, (ast.Name, ast.Constant, ast.Attribute)) for v in mp.values()):
+                    # only unroll when the substituted values are plain (names / attributes / constants, displays of constants)
+                    if not all(isinstance(v, (ast.Name, ast.Constant, ast.Attribute)) or
+                               (isinstance(v, (ast.Tuple, ast.List)) and all(isinstance(x, ast.Constant) for x in v.elts)) for v in mp.values()):
                         ok = False
                         break
                     # a loop variable that is assigned in the body cannot be substituted
@@ -1589,6 +1597,38 @@ def string_expr(fn_node: ast.FunctionDef, e: ast.AST, _depth: int = 0) -> Option
     return None
 
 
+def _expand_partials(node: ast.FunctionDef) -> bool:
+    """`g = partial(f, *a, **k)` bound once; `g(x, **m)` is `f(*a, x, **k, **m)`"""
+    changed = False
+    for block in _blocks(node):
+        for i, st in enumerate(block):
+            if not (isinstance(st, ast.Assign) and len(st.targets) == 1 and isinstance(st.targets[0], ast.Name) and isinstance(st.value, ast.Call) and
+                    ((isinstance(st.value.func, ast.Name) and st.value.func.id == "partial") or
+                     (isinstance(st.value.func, ast.Attribute) and st.value.func.attr == "partial" and ast.unparse(st.value.func.value) == "functools")) and
+                    st.value.args and not any(isinstance(a, ast.Starred) for a in st.value.args) and all(k.arg for k in st.value.keywords)):
+                continue
+            g = st.targets[0].id
+            if sum(1 for n in ast.walk(node) if isinstance(n, ast.Name) and n.id == g and isinstance(n.ctx, ast.Store)) != 1:
+                continue
+            uses = [n for n in ast.walk(node) if isinstance(n, ast.Name) and n.id == g and isinstance(n.ctx, ast.Load)]
+            calls = [n for n in ast.walk(node) if isinstance(n, ast.Call) and isinstance(n.func, ast.Name) and n.func.id == g]
+            if not calls or len(calls) != len(uses):
+                continue
+            f, pa, pk = st.value.args[0], st.value.args[1:], st.value.keywords
+            for c in calls:
+                given = {k.arg for k in c.keywords}
+                c.func = copy.deepcopy(f)
+                c.args = [copy.deepcopy(a) for a in pa] + c.args
+                c.keywords = [copy.deepcopy(k) for k in pk if k.arg not in given] + c.keywords
+            del block[i]
+            ast.fix_missing_locations(node)
+            changed = True
+            break
+        if changed:
+            break
+    return changed
+
+
 def _cond_iterables(node: ast.FunctionDef) -> bool:
     """`for v in (A if c else ())` — directly or through a local bound once and used only there — is `if c: for v in A`: a loop over
     nothing is no loop"""
@@ -1949,6 +1989,9 @@ def normalise(M, fn, subst: bool = False, guards: bool = False, keep=(), comps: 
             break
     for _ in range(4):
         if not _cond_iterables(node):
+            break
+    for _ in range(4):
+        if not _expand_partials(node):
             break
     for _ in range(3):
         if not _zip_stack_to_cursor(node):
